@@ -441,3 +441,57 @@ package core
 //@   let sn = fn(syntax.CallGraphNode.GetFqid, self.call)
 //@   ensures @self (sn == self.top.fqname + "." + fqname || sn == fqname) ==> result == self
 //@   ensures @named result != nil ==> (fn(syntax.CallGraphNode.GetFqid, result.call) == result.top.fqname + "." + fqname || fn(syntax.CallGraphNode.GetFqid, result.call) == fqname)
+
+// ---------------------------------------------------------------- C01 matching a reference to the right upstream forks
+
+// M(x) below stands for fn(core.ForkId.Matches, fork, x.forkId): what ForkId.Matches answers for
+// the query id and the fork's id (deterministic abstraction; Matches has its own loops).
+//@ func core.ForkId.Matches property C01
+//@   pure
+//@   opt deterministic on
+
+// matchForks is an order-preserving filter of node.forks by M: the k-th fork, when it
+// matches, is found in the result at the position equal to the number of matching forks
+// before it (cntB over the table T of M on the entry state), the result has exactly that
+// many elements, all of them match, and node.forks is left undisturbed although the
+// function filters in place until the first rejected element.
+//@ func core.Node.matchForks property C01
+//@   uses sums
+//@   nopanic
+//@   requires node != nil
+//@   requires forall k :: 0 <= k && k < len(node.forks) ==> node.forks[k] != nil
+//@   let T = table r *core.Fork :: fn(core.ForkId.Matches, fork, old(r.forkId))
+//@   let A = old(arr(node.forks))
+//@   let O = old(off(node.forks))
+//@   let N = old(len(node.forks))
+//@   modifies elems(node.forks)
+//@   ensures @all len(node.forkRoots) == 0 ==> base(result) == base(node.forks) && off(result) == off(node.forks) && len(result) == len(node.forks)
+//@   ensures @sound len(node.forkRoots) != 0 ==> forall j :: 0 <= j && j < len(result) ==> fn(core.ForkId.Matches, fork, result[j].forkId)
+//@   ensures @count len(node.forkRoots) != 0 ==> len(result) == cntB(T, A, O, N)
+//@   ensures @place len(node.forkRoots) != 0 ==> forall k :: 0 <= k && k < N && fn(core.ForkId.Matches, fork, node.forks[k].forkId) ==> cntB(T, A, O, k) < len(result) && result[cntB(T, A, O, k)] == node.forks[k]
+//@   ensures @undisturbed forall k :: 0 <= k && k < N ==> node.forks[k] == old(node.forks[k])
+//@   let S = off(forks) - O
+//@   let E = off(forks) - O + len(forks)
+//@   loop 1 invariant base(forks) == base(node.forks) && off(forks) >= O && E == N && cap(forks) >= len(forks) && arr(node.forks) == A
+//@   loop 1 invariant cntB(T, A, O, S) == 0
+//@   loop 1 invariant forall k :: 0 <= k && k < S ==> !fn(core.ForkId.Matches, fork, node.forks[k].forkId)
+//@   loop 1 decreases len(forks)
+//@   loop 2 invariant base(forks) == base(node.forks) && off(forks) >= O && E <= N && cap(forks) >= len(forks) && arr(node.forks) == A
+//@   loop 2 invariant cntB(T, A, O, S) == 0 && cntB(T, A, O, N) == cntB(T, A, O, E)
+//@   loop 2 invariant forall k :: 0 <= k && k < N && (k < S || k >= E) ==> !fn(core.ForkId.Matches, fork, node.forks[k].forkId)
+//@   loop 2 invariant len(forks) > 0 ==> fn(core.ForkId.Matches, fork, forks[0].forkId)
+//@   loop 2 decreases len(forks)
+//@   loop 3 invariant 1 <= i && i <= len(forks) - 1 && len(forks) > 2
+//@   loop 3 invariant base(forks) == base(node.forks) && off(forks) >= O && E <= N && cap(forks) >= len(forks)
+//@   loop 3 invariant forall k :: 0 <= k && k < N ==> node.forks[k] == old(node.forks[k])
+//@   loop 3 invariant framed(node.forks)
+//@   loop 3 invariant cntB(T, A, O, S) == 0 && cntB(T, A, O, N) == cntB(T, A, O, E)
+//@   loop 3 invariant forall k :: 0 <= k && k < N && (k < S || k >= E) ==> !fn(core.ForkId.Matches, fork, node.forks[k].forkId)
+//@   loop 3 invariant fn(core.ForkId.Matches, fork, node.forks[S].forkId) && fn(core.ForkId.Matches, fork, node.forks[E-1].forkId)
+//@   loop 3 invariant (base(result) == base(forks) && off(result) == off(forks) && cap(result) == cap(forks) && len(result) == i) || (base(result) != base(forks) && !old(alloc(base(result))) && cap(result) == len(forks) - 1 && cap(result) != cap(forks) && 1 <= len(result) && len(result) <= i - 1)
+//@   loop 3 invariant base(result) == base(forks) ==> cntB(T, A, O, S + i) == i
+//@   loop 3 invariant base(result) == base(forks) ==> forall k :: S <= k && k <= S + i ==> cntB(T, A, O, k) == k - S
+//@   loop 3 invariant len(result) == cntB(T, A, O, S + i)
+//@   loop 3 invariant forall j :: 0 <= j && j < len(result) ==> fn(core.ForkId.Matches, fork, result[j].forkId)
+//@   loop 3 invariant forall k :: S <= k && k < S + i && fn(core.ForkId.Matches, fork, node.forks[k].forkId) ==> cntB(T, A, O, k) < len(result) && result[cntB(T, A, O, k)] == node.forks[k]
+//@   loop 3 decreases len(forks) - i
